@@ -2,8 +2,9 @@ import Driver.Util
 import ZeepModel.Lex.GTypes
 import ZeepModel.Lex.Simple
 import ZeepModel.Lex.Base64
+import ZeepModel.Lex.DateTime
 namespace Driver
-open Lean Zeep.Digits Zeep.GTypes Zeep.Simple
+open Lean Zeep.Digits Zeep.GTypes Zeep.Simple Zeep.DateTime
 
 def jStrL (s : List Char) : Json := Json.str (String.ofList s)
 def jTz : Tz → Json
@@ -23,6 +24,14 @@ def lexEnc (j : Json) : R Json := do
   | "gDay" => do let a ← arr v; pure (jStrL (encDay (← nat (← at! a 0)) (← parseTzJ (← at! a 1))))
   | "gMonthDay" => do let a ← arr v; pure (jStrL (encMonthDay (← nat (← at! a 0)) (← nat (← at! a 1)) (← parseTzJ (← at! a 2))))
   | "tz" => pure (jStrL (unparseTz (← parseTzJ v)))
+  | "date" => do let a ← arr v; pure (jStrL (encDate ⟨← nat (← at! a 0), ← nat (← at! a 1), ← nat (← at! a 2)⟩))
+  | "time" => do
+    let a ← arr v
+    pure (jStrL (encTime ⟨← nat (← at! a 0), ← nat (← at! a 1), ← nat (← at! a 2), ← nat (← at! a 3), ← parseTzJ (← at! a 4)⟩))
+  | "dateTime" => do
+    let a ← arr v
+    pure (jStrL (encDateTime ⟨⟨← nat (← at! a 0), ← nat (← at! a 1), ← nat (← at! a 2)⟩,
+      ⟨← nat (← at! a 3), ← nat (← at! a 4), ← nat (← at! a 5), ← nat (← at! a 6), ← parseTzJ (← at! a 7)⟩⟩))
   | "base64" => pure (jStrL (Zeep.Base64.encode (← listOf nat v)))
   | "floatspecial" => do
     let s ← str v
@@ -41,6 +50,13 @@ def lexDec (j : Json) : R Json := do
   | "gDay" => pure (match decDay (collapseWs t) with | some (d, tz) => Json.arr #[jNat d, jTz tz] | none => Json.null)
   | "gMonthDay" => pure (match decMonthDay (collapseWs t) with | some (m, d, tz) => Json.arr #[jNat m, jNat d, jTz tz] | none => Json.null)
   | "tz" => pure (match parseTz t with | some tz => Json.mkObj [("tz", jTz tz)] | none => Json.null)
+  | "date" => pure (match decDate (collapseWs t) with | some d => Json.arr #[jNat d.year, jNat d.month, jNat d.day] | none => Json.null)
+  | "time" => pure (match decTime (collapseWs t) with
+      | some v => Json.arr #[jNat v.hour, jNat v.minute, jNat v.second, jNat v.micro, jTz v.tz] | none => Json.null)
+  | "dateTime" => pure (match decDateTime (collapseWs t) with
+      | some v => Json.arr #[jNat v.date.year, jNat v.date.month, jNat v.date.day,
+          jNat v.time.hour, jNat v.time.minute, jNat v.time.second, jNat v.time.micro, jTz v.time.tz]
+      | none => Json.null)
   | "base64" => pure (match Zeep.Base64.decodeLenient t with | some b => jList jNat b | none => Json.null)
   | "preserve" => pure (jStrL (applyFacet .preserve t))
   | "replace" => pure (jStrL (applyFacet .replace t))
